@@ -4,6 +4,9 @@ C16.a provenance of `original_instrs`: the list written into a specification is 
       sub-block translation from that sub-block's own opcode list (never left over from another sub-block / block)
 C16.b the quantities the bounds are computed from (instruction count, discount, stack bound, pops, term tables)
       are re-initialised per sub-block: one loop iteration can read none of them from the previous iteration
+C16.c the discount de-duplication level is the instruction's position
+C16.d the folding discount is counted once per expression
+C16.e store-selecting predicates cover MSTORE8
 """
 import ast
 
